@@ -92,6 +92,12 @@ def mutation_findings(ctx, eff, rule, only_funcs=None):
         for node, lab, what in eff.summ[f.qname].sinks:
             n_sinks += 1
             kind = lab.origin.split(" ")[0]
+            if kind == "MODELSTATE" and isinstance(node, ast.Assign) and len(node.targets) == 1 and isinstance(node.targets[0], ast.Subscript) \
+                    and isinstance(node.targets[0].value, ast.Attribute) and U(node.targets[0].value.value) == "self":
+                # filing a value in a table the model keeps (memoisation) edits no object anybody else holds; what matters is
+                # whether the filed object is handed out and edited later - those edits are sinks of their own
+                ctx.ok(rule, "entry filed in model-lifetime table: %s" % what[:80], f.where(node))
+                continue
             # ---- declared exceptions (one symbol, one reason each)
             if f.qname == "MachineModel.__init__":
                 if id(node) in build_ids:
